@@ -91,6 +91,10 @@ def guarded_fields(prog: Program, ci: ClassInfo, lock: str) -> set[str]:
     return out
 
 
+class NoEagerLock(Exception):
+    pass
+
+
 def lock_field(prog: Program, ci: ClassInfo) -> str:
     init = ci.methods.get("__init__")
     locks = []
@@ -100,6 +104,8 @@ def lock_field(prog: Program, ci: ClassInfo) -> str:
                 for t in n.targets:
                     if isinstance(t, ast.Attribute):
                         locks.append((t.attr, ast.unparse(n.value.func)))
+    if not locks:
+        raise NoEagerLock(f"{ci.qual}: __init__ does not create the lock (`self.<lock> = threading.Lock()`): a lock created lazily, or not at all, does not protect the first racing operations")
     if len(locks) != 1:
         raise AnalysisError(f"{ci.qual}: expected exactly one lock field, found {locks}")
     if "RLock" in locks[0][1]:
@@ -107,18 +113,89 @@ def lock_field(prog: Program, ci: ClassInfo) -> str:
     return locks[0][0]
 
 
-def with_lock_blocks(m: FuncInfo, sn: str, lock: str) -> list[ast.With]:
-    out = []
+def _lock_names(m: FuncInfo, sn: str, lock: str) -> set[str]:
+    """local names bound (only) to self.<lock>"""
+    out: set[str] = set()
+    binds: dict[str, list[ast.expr]] = {}
     for n in Program._own_nodes(m.node):
-        if isinstance(n, ast.With):
-            for it in n.items:
-                e = it.context_expr
-                if isinstance(e, ast.Attribute) and e.attr == lock and isinstance(e.value, ast.Name) and e.value.id == sn:
-                    out.append(n)
+        if isinstance(n, ast.Assign) and len(n.targets) == 1 and isinstance(n.targets[0], ast.Name):
+            binds.setdefault(n.targets[0].id, []).append(n.value)
+    for nm, vals in binds.items():
+        if all(isinstance(v, ast.Attribute) and v.attr == lock and isinstance(v.value, ast.Name) and v.value.id == sn for v in vals):
+            out.add(nm)
     return out
 
 
-def inside(node: ast.AST, blocks: list[ast.With]) -> bool:
+def _is_lock_expr(e: ast.expr, sn: str, lock: str, aliases: set[str]) -> bool:
+    return (isinstance(e, ast.Attribute) and e.attr == lock and isinstance(e.value, ast.Name) and e.value.id == sn) or (isinstance(e, ast.Name) and e.id in aliases)
+
+
+def with_lock_blocks(m: FuncInfo, sn: str, lock: str) -> list[ast.AST]:
+    """critical sections: `with self.<lock>:` blocks, and the spelled-out form
+    `L.acquire()` immediately followed by `try: ... finally: L.release()` (L = self.<lock> or a local alias of it)"""
+    out: list[ast.AST] = []
+    aliases = _lock_names(m, sn, lock)
+    for n in Program._own_nodes(m.node):
+        if isinstance(n, ast.With):
+            for it in n.items:
+                if _is_lock_expr(it.context_expr, sn, lock, aliases):
+                    out.append(n)
+        body = getattr(n, "body", None)
+        for seq in [body, getattr(n, "orelse", None), getattr(n, "finalbody", None)] + ([m.node.body] if n is m.node else []):
+            if not isinstance(seq, list):
+                continue
+            for i in range(len(seq) - 1):
+                a_, t_ = seq[i], seq[i + 1]
+                if (
+                    isinstance(a_, ast.Expr) and isinstance(a_.value, ast.Call) and isinstance(a_.value.func, ast.Attribute) and a_.value.func.attr == "acquire" and not a_.value.args and not a_.value.keywords
+                    and _is_lock_expr(a_.value.func.value, sn, lock, aliases)
+                    and isinstance(t_, ast.Try) and len(t_.finalbody) == 1 and isinstance(t_.finalbody[0], ast.Expr) and isinstance(t_.finalbody[0].value, ast.Call)
+                    and isinstance(t_.finalbody[0].value.func, ast.Attribute) and t_.finalbody[0].value.func.attr == "release"
+                    and ast.dump(t_.finalbody[0].value.func.value) == ast.dump(a_.value.func.value)
+                    and t_ not in out
+                ):
+                    out.append(t_)
+    # the function body itself is a statement list too
+    seq = m.node.body
+    for i in range(len(seq) - 1):
+        a_, t_ = seq[i], seq[i + 1]
+        if (
+            isinstance(a_, ast.Expr) and isinstance(a_.value, ast.Call) and isinstance(a_.value.func, ast.Attribute) and a_.value.func.attr == "acquire" and not a_.value.args and not a_.value.keywords
+            and _is_lock_expr(a_.value.func.value, sn, lock, aliases)
+            and isinstance(t_, ast.Try) and len(t_.finalbody) == 1 and isinstance(t_.finalbody[0], ast.Expr) and isinstance(t_.finalbody[0].value, ast.Call)
+            and isinstance(t_.finalbody[0].value.func, ast.Attribute) and t_.finalbody[0].value.func.attr == "release"
+            and ast.dump(t_.finalbody[0].value.func.value) == ast.dump(a_.value.func.value)
+            and t_ not in out
+        ):
+            out.append(t_)
+    return out
+
+
+def lock_protocol_uses(m: FuncInfo, sn: str, lock: str, blocks: list[ast.AST]) -> set[int]:
+    """ids of the AST nodes through which the lock is legitimately used: the `with` context expressions, and for the
+    spelled-out form the alias binding, the acquire() right before the try and the release() in its finally"""
+    ok: set[int] = set()
+    aliases = _lock_names(m, sn, lock)
+    for b in blocks:
+        if isinstance(b, ast.With):
+            for it in b.items:
+                for x in ast.walk(it.context_expr):
+                    ok.add(id(x))
+        elif isinstance(b, ast.Try):
+            for x in ast.walk(b.finalbody[0]):
+                ok.add(id(x))
+    for n in Program._own_nodes(m.node):
+        if isinstance(n, ast.Assign) and len(n.targets) == 1 and isinstance(n.targets[0], ast.Name) and n.targets[0].id in aliases:
+            for x in ast.walk(n.value):
+                ok.add(id(x))
+        if isinstance(n, ast.Expr) and isinstance(n.value, ast.Call) and isinstance(n.value.func, ast.Attribute) and n.value.func.attr == "acquire" and _is_lock_expr(n.value.func.value, sn, lock, aliases):
+            # only the acquire that opens one of the recognised regions
+            for x in ast.walk(n):
+                ok.add(id(x))
+    return ok
+
+
+def inside(node: ast.AST, blocks: list[ast.AST]) -> bool:
     return any(node in list(ast.walk(b)) for b in blocks)
 
 
@@ -143,7 +220,13 @@ def run(rep: Report, prog: Program, tier: str) -> None:
     rep.rule("R17.3", "no re-entrancy / callbacks / blocking while the lock is held; lock used only via `with`; one lock per class")
     for cq, floor_fields in CLASSES.items():
         ci = prog.cls(cq)
-        lock = lock_field(prog, ci)
+        try:
+            lock = lock_field(prog, ci)
+        except NoEagerLock as exc:
+            rep.instance("R17.3", f"{cq}|lock-created-in-__init__")
+            init = ci.methods.get("__init__")
+            rep.fail("R17.3", f"{cq}|no-eager-lock", str(exc), where=(init.where() if init is not None else f"{ci.module.relpath}:{ci.node.lineno}"), function=cq)
+            continue
         guarded = guarded_fields(prog, ci, lock)
         if not floor_fields <= guarded:
             raise AnalysisError(f"{cq}: inferred guarded fields {sorted(guarded)} no longer include {sorted(floor_fields - guarded)}")
@@ -284,7 +367,7 @@ def run(rep: Report, prog: Program, tier: str) -> None:
                     continue
                 if not (inside(n, blocks) or held_everywhere):
                     continue
-                if any(n is it.context_expr for b in blocks for it in b.items):
+                if id(n) in lock_protocol_uses(m, sn, lock, blocks):
                     continue
                 rep.instance("R17.3", f"{m.qual}|call {ast.unparse(n.func)}")
                 problem = None
@@ -314,7 +397,7 @@ def run(rep: Report, prog: Program, tier: str) -> None:
             # lock used only through `with`
             for n in prog._own_nodes(m.node):
                 if isinstance(n, ast.Attribute) and n.attr == lock and isinstance(n.value, ast.Name) and n.value.id == sn:
-                    is_ctx = any(n is it.context_expr for b in blocks for it in b.items)
+                    is_ctx = id(n) in lock_protocol_uses(m, sn, lock, blocks)
                     is_init = name == "__init__" and isinstance(n.ctx, ast.Store)
                     rep.instance("R17.3", f"{m.qual}|lock-use")
                     if is_ctx or is_init:
